@@ -30,6 +30,7 @@ class PathEval:
         self.f = f
         self.b = body
         self.max_paths = max_paths
+        self.depth = 0
         self.out = []
 
     def place(self, env, p):
@@ -125,6 +126,25 @@ class PathEval:
             args = tuple(a for a in args if not (a[0] == "agg" and a[1] == "std::sync::atomic::Ordering"))
             name = fn.get("def") or "<indirect>"
             d = t["dest"]
+            # a crate-local, loop-free callee (e.g. another accessor) is evaluated in place: its paths continue here
+            cb = self.f.body((fn.get("resolved") or {}).get("def") or name) if fn else None
+            if cb is not None and self.depth < 3 and cb.def_kind in ("Fn", "AssocFn") and not self.f.fns.get(cb.defn, {}).get("async") and len(args) == cb.arg_count:
+                try:
+                    sub = PathEval(self.f, cb, self.max_paths)
+                    sub.depth = self.depth + 1
+                    env0 = {i + 1: a for i, a in enumerate(args)}
+                    sub._walk(0, env0, (), frozenset())
+                    res = [(c2, v2) for c2, v2, _ in sub.out]
+                except TooComplex:
+                    res = None
+                if res:
+                    for c2, v2 in res:
+                        e2 = dict(env)
+                        if not d["p"]:
+                            e2[d["l"]] = v2
+                        if t.get("target") is not None:
+                            self._walk(t["target"], e2, conds + tuple(c2), onpath)
+                    return
             if not d["p"]:
                 env[d["l"]] = ("callv", name, args)
             if t.get("target") is not None:
